@@ -87,7 +87,7 @@ var simpleKey = rapid.StringMatching(`[a-z][a-z0-9_]{0,7}`)
 
 var hostileStrings = []string{"", " ", "a b", "k\"q", "back\\slash", "line\nbreak", "cr\rlf\n", "tab\t", "nul\x00", "\x1f", "\x7f", "\xff", "\xc0\x80",
 	"\xed\xa0\x80", "\xf4\x90\x80\x80", "\xe2\x82", "é", "日本", "\U0001F600", " ", "�", "||", "=", "a=b||c", "{", "}", "[", "]", ",", ":", "\"", "\\",
-	"\\u0041", "msg", "level", "time", "fileLine", "tag", "ctxString", "<script>&", "null", "true", "1e5", "NaN"}
+	"\\u0041", "\u2029", "\u2028\u2029", "para\u2029graph", "\u0085", "\ufeff", "msg", "level", "time", "fileLine", "tag", "ctxString", "<script>&", "null", "true", "1e5", "NaN"}
 
 func (g *fgen) str(label string) string {
 	var s string
@@ -276,6 +276,15 @@ type ZooBad struct {
 	Ch chan int
 }
 
+// ZooEnum and ZooMasked are named scalar types that customise their JSON form.
+type ZooEnum int
+
+func (z ZooEnum) MarshalText() ([]byte, error) { return []byte("enum-" + strconv.Itoa(int(z))), nil }
+
+type ZooMasked string
+
+func (z ZooMasked) MarshalJSON() ([]byte, error) { return []byte(`"***"`), nil }
+
 // ZooErr fails to marshal with a caller-chosen error text (which the encoders must still turn
 // into a valid JSON string).
 type ZooErr struct{ Msg string }
@@ -286,7 +295,7 @@ func (z ZooErr) MarshalJSON() ([]byte, error) { return nil, errors.New(z.Msg) }
 // []int, []float64, string, ... to typed constructors - those members are left out so that the
 // expectation really is "the default (reflect) arm".
 func (g *fgen) zoo(forAny bool) (any, EV, string) {
-	z := rapid.IntRange(0, 16).Draw(g.t, "zoo")
+	z := rapid.IntRange(0, 19).Draw(g.t, "zoo")
 	if forAny && (z == 6 || z == 8 || z == 12) {
 		z = 2
 	}
@@ -375,6 +384,14 @@ func (g *fgen) zoo(forAny bool) (any, EV, string) {
 		return myBytes(b), evStr(base64.StdEncoding.EncodeToString(b)), fmt.Sprintf("myBytes(%x) -> base64", b)
 	case 14:
 		return errors.New("boom"), EV{K: 'o'}, "errors.New (marshals as {})"
+	case 17: // a named integer type that marshals as text (an enum)
+		n := rapid.IntRange(0, 9).Draw(g.t, "zenum")
+		return ZooEnum(n), evStr("enum-" + strconv.Itoa(n)), fmt.Sprintf("ZooEnum(%d) (MarshalText)", n)
+	case 18: // a named string type that masks its content when marshalled
+		return ZooMasked(g.str("zmask")), evStr("***"), "ZooMasked (MarshalJSON masks the content)"
+	case 19: // json.Number keeps its number form
+		n := rapid.IntRange(-99999, 99999).Draw(g.t, "znum")
+		return json.Number(strconv.Itoa(n) + ".5"), evFloat(float64(n) + map[bool]float64{true: 0.5, false: -0.5}[n >= 0]), fmt.Sprintf("json.Number(%d.5)", n)
 	case 16:
 		// a json.RawMessage as it comes out of json.Encoder / MarshalIndent or an HTTP body: valid
 		// JSON with insignificant white space, line feeds included. The record is still one line.
